@@ -1416,9 +1416,17 @@ class Emitter:
                     plist.append('%s%s *%s' % (const, self.decl_ctype(pi), nm))
                     self.refs[p['id']] = '(*%s)' % nm
                 else:
-                    # by value: the C function works on a private copy made by the caller stub
-                    plist.append('%s *%s' % (self.decl_ctype(pi), nm))
-                    self.refs[p['id']] = '(*%s)' % nm
+                    if self.opts.get('byval_copy'):
+                        # by value: the function works on a private copy (distinct object identity; a derived argument is sliced)
+                        # (the parameter keeps its name so that contracts written for a reference parameter still compile and then FAIL
+                        # on identity, instead of breaking the build)
+                        plist.append('const %s *%s' % (self.decl_ctype(pi), nm))
+                        defaults += '%s vp_copy_%s = *%s;\n' % (self.decl_ctype(pi), nm, nm)
+                        self.refs[p['id']] = '(vp_copy_%s)' % nm
+                    else:
+                        # by value: the C function works on a private copy made by the caller stub
+                        plist.append('%s *%s' % (self.decl_ctype(pi), nm))
+                        self.refs[p['id']] = '(*%s)' % nm
             elif pi['ref'] and not pi['const']:
                 self.fire('G5')
                 plist.append('%s *%s' % (pi['ctype'], nm))
